@@ -1043,4 +1043,164 @@ theorem loopHead_sim (P : Prog) : ∀ (n m : Nat) (c d : Cfg), n ≤ m → n ≤
           exact stepBodyK_sim P _ _ _ (fun e e' hme hie hde => ih m' e e' (by omega) (by omega) hme hie hde)
             c d hm hp hinv htf hD
 
+/-! ### a tick of the stepping task -/
+
+theorem tickStepper_notStarted (P : Prog) (c : Cfg) (h : c.pc = .notStarted) : tickStepper P c = loopHead P fuel0 c := by
+  unfold tickStepper; rw [h]
+theorem tickDone_notStarted (P : Prog) (c : Cfg) (h : c.pc = .notStarted) : tickDone P c = loopDone P fuel0 c := by
+  unfold tickDone; rw [h]
+theorem tickStepper_inUser (P : Prog) (c : Cfg) (b : Body) (h : c.pc = .inUser b) :
+    tickStepper P c = if b.awaits = 0 then loopHead P fuel0 (finishUser c b.out)
+      else { c with pc := .inUser { b with awaits := b.awaits - 1 } } := by
+  unfold tickStepper; rw [h]
+theorem tickDone_inUser (P : Prog) (c : Cfg) (b : Body) (h : c.pc = .inUser b) :
+    tickDone P c = if b.awaits = 0 then loopDone P fuel0 (finishUser c b.out) else true := by
+  unfold tickDone; rw [h]
+theorem tickStepper_wait_pending (P : Prog) (c : Cfg) (wf : Nat) (h : c.pc = .awaitWaiting wf)
+    (hw : c.wfs[wf]? = some .pending) : tickStepper P c = c := by
+  unfold tickStepper; rw [h]; dsimp only; rw [hw]
+theorem tickStepper_wait_done (P : Prog) (c : Cfg) (fn wf : Nat) (wk aw) (w : WF) (h : c.pc = .awaitWaiting wf)
+    (hst : c.st = .waiting fn wf wk aw) (hw : c.wfs[wf]? = some w) (hp : w ≠ .pending) :
+    tickStepper P c = loopHead P fuel0 (wake c fn wf w) := by
+  unfold tickStepper; rw [h]; dsimp only; rw [hw, hst]
+  cases w <;> first | rfl | exact absurd rfl hp
+theorem tickDone_wait_done (P : Prog) (c : Cfg) (fn wf : Nat) (wk aw) (w : WF) (h : c.pc = .awaitWaiting wf)
+    (hst : c.st = .waiting fn wf wk aw) (hw : c.wfs[wf]? = some w) (hp : w ≠ .pending) :
+    tickDone P c = loopDone P fuel0 (wake c fn wf w) := by
+  unfold tickDone; rw [h]; dsimp only; rw [hw, hst]
+  cases w <;> first | rfl | exact absurd rfl hp
+theorem tickStepper_done (P : Prog) (c : Cfg) (h : c.pc = .done) : tickStepper P c = c := by
+  unfold tickStepper; rw [h]
+theorem tickStepper_crashed (P : Prog) (c : Cfg) (e : Exc) (h : c.pc = .crashed e) : tickStepper P c = c := by
+  unfold tickStepper; rw [h]
+
+theorem mid_of_end {c d e e' : Cfg} (he : EndRel c d e e') (hc : NotCrashed c) (hd : NotCrashed d) : Mid e e' :=
+  ⟨he.core, he.int, he.stepping, by intro x hx; rw [he.pcc] at hx; exact hc x hx,
+    by intro x hx; rw [he.pcd] at hx; exact hd x hx⟩
+
+theorem SRel.waiting_inv {cw dw : List WF} {s s' : SObj} {fn wf : Nat} {wk aw} (h : SRel cw dw s s')
+    (hs : s = .waiting fn wf wk aw) :
+    ∃ wf' w, wk = none ∧ s' = .waiting fn wf' none aw ∧ cw[wf]? = some w ∧ dw[wf']? = some w ∧ ∀ k, w ≠ .interrupted k := by
+  rcases h with ⟨_, hnw⟩ | ⟨fn0, wf0, aw0, wf0', w, h1, h2, h3, h4, h5⟩
+  · exact absurd hs (hnw _ _ _ _)
+  · rw [hs] at h1; cases h1
+    exact ⟨wf0', w, rfl, h2, h3, h4, h5⟩
+
+theorem tick_inStep (P : Prog) (c d : Cfg) (h : InStep c d) (hinv : InvP c) (hD : tickDone P d = true) :
+    SL P (tickStepper P c) (tickStepper P d) := by
+  have hpcr := h.pc
+  cases hpc : c.pc with
+  | notStarted =>
+    rw [hpc] at hpcr
+    have hpd : d.pc = .notStarted := hpcr
+    obtain ⟨hs, hi⟩ := h.idle (by rw [hpc]; rfl)
+    rw [tickStepper_notStarted P c hpc, tickStepper_notStarted P d hpd]
+    rw [tickDone_notStarted P d hpd] at hD
+    exact loopHead_sim P fuel0 fuel0 c d (Nat.le_refl _) (Nat.le_refl _)
+      ⟨h.core, hi, hs, (by intro e he; rw [hpc] at he; cases he), (by intro e he; rw [hpd] at he; cases he)⟩ hinv hD
+  | done =>
+    rw [hpc] at hpcr
+    have hpd : d.pc = .done := hpcr
+    rw [tickStepper_done P c hpc, tickStepper_done P d hpd]; exact Or.inl h
+  | crashed e =>
+    rw [hpc] at hpcr
+    have hpd : d.pc = .crashed e := hpcr
+    rw [tickStepper_crashed P c e hpc, tickStepper_crashed P d e hpd]; exact Or.inl h
+  | awaitPaused pf => rw [hpc] at hpcr; exact absurd hpcr (by simp [PcRelAt])
+  | inUser b =>
+    rw [hpc] at hpcr
+    obtain ⟨hpd, fn, args, kw, hst⟩ := hpcr
+    obtain ⟨hs, hp⟩ := h.run (by rw [hpc]; rfl)
+    rw [tickStepper_inUser P c b hpc, tickStepper_inUser P d b hpd]
+    rw [tickDone_inUser P d b hpd] at hD
+    by_cases ha : b.awaits = 0
+    · simp only [ha, if_true] at hD ⊢
+      have he := finishUser_core c d b.out h.core h.intOk
+      exact loopHead_sim P fuel0 fuel0 _ _ (Nat.le_refl _) (Nat.le_refl _)
+        (mid_of_end he (by intro e he; rw [hpc] at he; cases he) (by intro e he; rw [hpd] at he; cases he))
+        (finishUser_invP _ _ hinv) hD
+    · simp only [ha, if_false]
+      left
+      exact ⟨core_pc _ _ _ _ h.core, h.intOk.of_eq rfl rfl, ⟨rfl, fn, args, kw, hst⟩, fun _ => ⟨hs, hp⟩,
+        fun h => by simp [isRunningPc] at h⟩
+  | awaitWaiting wf =>
+    rw [hpc] at hpcr
+    obtain ⟨fn, wk, aw, wf', hst, hst', hpd⟩ := hpcr
+    obtain ⟨wf2, w, hwk, hst2, hw, hw', hni⟩ := h.core.st.waiting_inv hst
+    rw [hst'] at hst2; cases hst2
+    by_cases hwp : w = .pending
+    · subst hwp
+      rw [tickStepper_wait_pending P c wf hpc hw, tickStepper_wait_pending P d wf' hpd hw']; exact Or.inl h
+    · rw [tickStepper_wait_done P c fn wf wk aw w hpc hst hw hwp, tickStepper_wait_done P d fn wf' none aw w hpd hst' hw' hwp]
+      rw [tickDone_wait_done P d fn wf' none aw w hpd hst' hw' hwp] at hD
+      have he := wake_core c d fn wf wf' w h.core h.intOk hni hwp
+      exact loopHead_sim P fuel0 fuel0 _ _ (Nat.le_refl _) (Nat.le_refl _)
+        (mid_of_end he (by intro e he; rw [hpc] at he; cases he) (by intro e he; rw [hpd] at he; cases he))
+        (wake_invP _ _ _ _ hinv) hD
+
+theorem wake_interrupted (c : Cfg) (fn wf k f : Nat) (aw : List (Nat × Nat)) (hst : c.st = .waiting f wf none aw)
+    (hi : c.interrupt ≠ none) :
+    wake c fn wf (.interrupted k) =
+      finally_ (dispatch { c with st := .waiting f c.wfs.length none aw, wfs := c.wfs ++ [.pending] } none) := by
+  unfold wake; dsimp only; rw [hst]; dsimp only
+  simp only [if_true]
+  rw [endOfStep_unfold]
+  cases hint : c.interrupt with
+  | none => exact absurd hint hi
+  | some i => simp only [prepare, hint]
+
+theorem stepDoneK_waiting_pending (P : Prog) (k : Cfg → Bool) (c : Cfg) (fn wf : Nat) (wk aw)
+    (h : c.st = .waiting fn wf wk aw) (hw : c.wfs[wf]? = some .pending) : stepDoneK P k c = true := by
+  unfold stepDoneK; dsimp only; rw [h]; dsimp only; rw [hw]
+
+theorem fuel0_ge_one : 1 ≤ fuel0 := by unfold fuel0; omega
+
+/-- the tick after a pause request that hit a pending wait: the run with pauses re-arms its wait and then either pauses
+or (the request was retracted) waits again; the reference run does nothing -/
+theorem tick_qw (P : Prog) (c d : Cfg) (h : QW c d) (hinv : InvP c) (hI : Inv c) :
+    SL P (tickStepper P c) d ∧ tickStepper P d = d := by
+  obtain ⟨fn, wf, aw, wf', k, hst, hst', hw, hw', hpc, hpd⟩ := h.wait
+  have hd : tickStepper P d = d := tickStepper_wait_pending P d wf' hpd hw'
+  refine ⟨?_, hd⟩
+  rw [tickStepper_wait_done P c fn wf none aw (.interrupted k) hpc hst hw (by intro x; cases x)]
+  have hwinv := wake_invP c fn wf (.interrupted k) hinv
+  rw [wake_interrupted c fn wf k fn aw hst h.intSome] at hwinv ⊢
+  have hcore : Core { c with st := .waiting fn c.wfs.length none aw, wfs := c.wfs ++ [.pending] } d := by
+    refine ⟨h.sh, Or.inr ⟨fn, c.wfs.length, aw, wf', .pending, rfl, hst', ?_, hw', ?_⟩, h.ckill, h.dint, h.dpaused⟩
+    · simp
+    · intro x hx; cases hx
+  have he := endRel_of c d _ d none none hcore (h.intOk.of_eq rfl rfl) (Or.inl ⟨rfl, rfl⟩) rfl rfl
+  have hm := mid_of_end he (by intro e he; rw [hpc] at he; cases he) (by intro e he; rw [hpd] at he; cases he)
+  -- the reference side of the end of step is `d` with the stepping flag cleared; one loop iteration restores `d`
+  have hlive : terminal d.st.label = false := by rw [hst']; simp [SObj.label, terminal, allowed]
+  have hlivec : terminal c.st.label = false := by rw [hst]; simp [SObj.label, terminal, allowed]
+  have hcl : d.closed = false := by
+    have h1 : c.closed = false := not_closed_of_live hI hlivec
+    have h2 : c.closed = d.closed := (sh_fields h.sh).2.2.2.1
+    rw [← h2]; exact h1
+  have hstep : d.stepping = true := by
+    have h2 : c.stepping = d.stepping := (sh_fields h.sh).1
+    rw [← h2]; exact h.stepping
+  have he' : finally_ (dispatch d none) = { d with stepping := false, interrupt := none } := by
+    rw [dispatch_d d none h.dint hlive]
+    unfold transOpt finally_ setInterrupt
+    simp only [h.dint]
+  have hnc : NotCrashed { d with stepping := false, interrupt := none } := by intro e he; rw [show _ = d.pc from rfl, hpd] at he; cases he
+  have hl1 : loopHead P 1 { d with stepping := false, interrupt := none } = d := by
+    rw [loopHead_go P 0 _ hnc hlive hcl (not_held_of_none h.dpaused)]
+    rw [stepBodyK_waiting_pending P _ { d with stepping := false, interrupt := none } fn wf' none aw hst' hw']
+    cases d
+    simp only at hstep hpd
+    have hdi := h.dint
+    simp only at hdi
+    subst hstep hpd hdi
+    rfl
+  have hD1 : loopDone P 1 { d with stepping := false, interrupt := none } = true := by
+    rw [loopDone_go P 0 _ hnc hlive hcl h.dpaused]
+    exact stepDoneK_waiting_pending P _ { d with stepping := false, interrupt := none } fn wf' none aw hst' hw'
+  rw [he'] at hm
+  have := loopHead_sim P 1 fuel0 _ _ fuel0_ge_one fuel0_ge_one hm hwinv hD1
+  rw [hl1] at this
+  exact this
+
 end PMF
